@@ -72,29 +72,38 @@ type SessFamily struct {
 	Name   string
 	Module string
 	Eval   []string // properties whose clauses the trace validator evaluates
+	Random bool     // shapes are seeded random descriptors handed to TLC in a file
 }
 
 var sessFamilies = map[string]SessFamily{
-	"empty":       {"empty", "MC_SessEmpty", []string{"C03", "C04", "C07", "C20"}},
-	"reset":       {"reset", "MC_SessReset", []string{"C05", "C07"}},
-	"echo":        {"echo", "MC_SessEcho", []string{"C08"}},
-	"refresh":     {"refresh", "MC_SessRefresh", []string{"C09"}},
-	"badfrom":     {"badfrom", "MC_SessBadFrom", []string{"C06"}},
-	"badto":       {"badto", "MC_SessBadTo", []string{"C06"}},
-	"genmap":      {"genmap", "MC_GenMap", []string{"C01", "C02"}},
-	"genflags":    {"genflags", "MC_GenFlags", []string{"C10"}},
-	"genselect":   {"genselect", "MC_GenSelect", []string{"C12", "C01"}},
-	"genwhole":    {"genwhole", "MC_GenWhole", []string{"C18", "C03", "C02"}},
-	"genconfig":   {"genconfig", "MC_GenConfig", []string{"C16"}},
-	"gendet":      {"gendet", "MC_GenDet", []string{"C14"}},
-	"gensort":     {"gensort", "MC_GenSort", []string{"C15"}},
-	"gensep":      {"gensep", "MC_GenSep", []string{"C13"}},
-	"genaddr":     {"genaddr", "MC_GenAddr", []string{"C11"}},
-	"boundary":    {"boundary", "MC_Boundary", []string{"C19", "nodrift"}},
-	"custom":      {"custom", "MC_Custom", []string{"C17"}},
-	"custombad":   {"custombad", "MC_CustomBad", []string{"C17"}},
-	"custombadto": {"custombadto", "MC_CustomBadTo", []string{"C17"}},
-	"genexcl":     {"genexcl", "MC_GenExcl", []string{"C11", "C05"}},
+	"empty":       {"empty", "MC_SessEmpty", []string{"C03", "C04", "C07", "C20"}, false},
+	"reset":       {"reset", "MC_SessReset", []string{"C05", "C07"}, false},
+	"echo":        {"echo", "MC_SessEcho", []string{"C08"}, false},
+	"refresh":     {"refresh", "MC_SessRefresh", []string{"C09"}, false},
+	"badfrom":     {"badfrom", "MC_SessBadFrom", []string{"C06"}, false},
+	"badto":       {"badto", "MC_SessBadTo", []string{"C06"}, false},
+	"genmap":      {"genmap", "MC_GenMap", []string{"C01", "C02"}, false},
+	"genflags":    {"genflags", "MC_GenFlags", []string{"C10"}, false},
+	"genselect":   {"genselect", "MC_GenSelect", []string{"C12", "C01"}, false},
+	"genwhole":    {"genwhole", "MC_GenWhole", []string{"C18", "C03", "C02"}, false},
+	"genconfig":   {"genconfig", "MC_GenConfig", []string{"C16"}, false},
+	"gendet":      {"gendet", "MC_GenDet", []string{"C14"}, false},
+	"gensort":     {"gensort", "MC_GenSort", []string{"C15"}, false},
+	"gensep":      {"gensep", "MC_GenSep", []string{"C13"}, false},
+	"genaddr":     {"genaddr", "MC_GenAddr", []string{"C11"}, false},
+	"boundary":    {"boundary", "MC_Boundary", []string{"C19", "nodrift"}, false},
+	"custom":      {"custom", "MC_Custom", []string{"C17"}, false},
+	"custombad":   {"custombad", "MC_CustomBad", []string{"C17"}, false},
+	"custombadto": {"custombadto", "MC_CustomBadTo", []string{"C17"}, false},
+	// the same scripts over seeded random descriptors (VERIF_SEED)
+	"rnd-empty":   {"rnd-empty", "MC_RndEmpty", []string{"C03", "C04", "C07", "C20"}, true},
+	"rnd-reset":   {"rnd-reset", "MC_RndReset", []string{"C05", "C07"}, true},
+	"rnd-echo":    {"rnd-echo", "MC_RndEcho", []string{"C08"}, true},
+	"rnd-refresh": {"rnd-refresh", "MC_RndRefresh", []string{"C09"}, true},
+	"rnd-badfrom": {"rnd-badfrom", "MC_RndBadFrom", []string{"C06"}, true},
+	"rnd-badto":   {"rnd-badto", "MC_RndBadTo", []string{"C06"}, true},
+	"rnd-gen":     {"rnd-gen", "MC_RndGen", []string{"C01", "C02", "C10"}, true},
+	"genexcl":     {"genexcl", "MC_GenExcl", []string{"C11", "C05"}, false},
 }
 
 type vector struct {
@@ -127,7 +136,9 @@ var reKey = regexp.MustCompile(`[^a-z0-9]+`)
 
 // shapeKey: directory / package name of a run.  The trailing _x keeps Go from reading a numeric or OS-like
 // last word as a build constraint (a file s_..._386.pb.go is only compiled for GOARCH=386).
-func shapeKey(id string) string { return "s_" + reKey.ReplaceAllString(strings.ToLower(id), "_") + "_x" }
+func shapeKey(id string) string {
+	return "s_" + reKey.ReplaceAllString(strings.ToLower(id), "_") + "_x"
+}
 
 // driverStep converts a spec history step into a driver step.
 func driverStep(st map[string]interface{}) map[string]interface{} {
@@ -180,7 +191,6 @@ func harnessHash() string {
 	return hex.EncodeToString(h.Sum(nil))[:16]
 }
 
-
 func cachePath(kind, name, tier string, seed int64, withRepo bool) string {
 	k := specHash() + harnessHash()
 	if withRepo {
@@ -191,13 +201,17 @@ func cachePath(kind, name, tier string, seed int64, withRepo bool) string {
 }
 
 // enumerate runs the family's TLC model (cached: independent of /repo) and returns shapes + vectors.
-func enumerate(w string, fam SessFamily, tier string) ([]shapeRec, []vector, *TLCResult, error) {
+func enumerate(w string, fam SessFamily, tier string, seed int64) ([]shapeRec, []vector, *TLCResult, error) {
 	type cached struct {
 		Shapes  []shapeRec `json:"shapes"`
 		Vectors []vector   `json:"vectors"`
 		Res     TLCResult  `json:"res"`
 	}
-	cp := cachePath("mc", fam.Module, tier, 0, false)
+	mcSeed := int64(0)
+	if fam.Random {
+		mcSeed = seed
+	}
+	cp := cachePath("mc", fam.Module, tier, mcSeed, false)
 	if b, err := ioutil.ReadFile(cp); err == nil {
 		var c cached
 		if json.Unmarshal(b, &c) == nil && len(c.Vectors) > 0 {
@@ -212,7 +226,19 @@ func enumerate(w string, fam SessFamily, tier string) ([]shapeRec, []vector, *TL
 	if tier == "thorough" {
 		cfg = fam.Module + "_thorough.cfg"
 	}
-	res, err := runTLC(dir, fam.Module+".tla", cfg, 12, 12000, 40*time.Minute, nil)
+	var tlcEnv []string
+	if fam.Random {
+		n, size := 10, 3
+		if tier == "thorough" {
+			n, size = 80, 5
+		}
+		sf := filepath.Join(dir, "shapes.json")
+		if err := ioutil.WriteFile(sf, mustJSON(randomShapes("rnd", seed, n, size)), 0o644); err != nil {
+			return nil, nil, nil, err
+		}
+		tlcEnv = []string{"VERIF_SHAPES=" + sf}
+	}
+	res, err := runTLC(dir, fam.Module+".tla", cfg, 12, 12000, 40*time.Minute, tlcEnv)
 	if err != nil {
 		return nil, nil, res, err
 	}
@@ -379,7 +405,7 @@ func runSessionFamily(env *pipeline.Env, fam SessFamily, tier string, seed int64
 			}
 		}
 	}
-	shapes, vecs, mc, err := enumerate(env.W, fam, tier)
+	shapes, vecs, mc, err := enumerate(env.W, fam, tier, seed)
 	if err != nil {
 		return nil, err
 	}
